@@ -1145,7 +1145,13 @@ def tables(repo, tier):
         allowed_globals = {"M_NS", "_SKIP_TAGS", "GREEK_TO_LATEX", "convert_greek_and_symbols", "ET"}
         locs = {a.arg for a in fo.args.args} | {n.id for n in ast.walk(fo) if isinstance(n, ast.Name) and isinstance(n.ctx, ast.Store)}
         locs |= {a.arg for a in fp.args.args} | {fp.name}
-        free = sorted({n.id for n in ast.walk(fo) if isinstance(n, ast.Name) and isinstance(n.ctx, ast.Load)} - locs - allowed_globals)
+        ann = set()
+        for n in ast.walk(fo):
+            for a in ([n.annotation] if isinstance(n, (ast.AnnAssign, ast.arg)) and n.annotation is not None else []) + \
+                     ([n.returns] if isinstance(n, ast.FunctionDef) and n.returns is not None else []):
+                ann |= {id(x) for x in ast.walk(a)}
+        free = sorted({n.id for n in ast.walk(fo) if isinstance(n, ast.Name) and isinstance(n.ctx, ast.Load) and id(n) not in ann}
+                      - locs - allowed_globals)
         nonl = sorted({x for n in ast.walk(fo) if isinstance(n, (ast.Nonlocal, ast.Global)) for x in n.names})
         P("omml_to_latex.py::omml_to_latex/policy#reads-only-argument-closure-state-and-module-constants",
           not free and nonl == [PENDING], f"free={free} nonlocal/global={nonl}")
@@ -1198,7 +1204,34 @@ def tables(repo, tier):
     return {"obligations": obls, "functions": fns, "undecided": und}
 
 
-EXTRA = [tables]
+def bounded_native(repo, tier):
+    """BOUNDED stand-in (never counted as proved): the executable contract -- totality, determinism,
+    balance, run order/once, documented forms -- on the real function over the small scope of
+    replay/C19.py.  Only a *failing input* becomes an obligation (refuted, replayable)."""
+    import json
+    import os
+    import subprocess
+    root = os.path.dirname(os.path.dirname(os.path.abspath(__file__)))
+    oid = "C19/omml_to_latex.py::omml_to_latex/bounded#small-scope-executable-contract"
+    try:
+        p = subprocess.run(["/venv/bin/python", os.path.join(root, "replay", "run.py")],
+                           input=json.dumps({"property": "C19", "obligation": oid, "repo": repo}),
+                           capture_output=True, text=True, timeout=900, cwd=root, env=dict(os.environ, VERIF_REPO=repo))
+        lines = [l for l in p.stdout.splitlines() if l.startswith("{")]
+        res = json.loads(lines[-1]) if lines else {"reproduced": False, "note": "no output: " + (p.stderr or "")[-300:]}
+    except Exception as e:  # noqa
+        res = {"reproduced": False, "note": f"native small-scope run failed: {e}"}
+    if res.get("reproduced"):
+        return {"obligations": [{"id": oid, "kind": "bounded", "status": "refuted", "vcs": 1, "seconds": 0.0,
+                                 "backends": {"native-small-scope": 1}, "witness": None,
+                                 "reason": f"{res.get('check')}: expected {res.get('expected')!r} observed {res.get('observed')!r} "
+                                           f"on {(res.get('inputs') or {}).get('xml')}", "loc": "replay/C19.py"}]}
+    if "satisfy" not in (res.get("note") or ""):
+        return {"undecided": [{"obligation": oid, "why": "bounded native run did not complete: " + str(res.get("note"))[:200]}]}
+    return {}
+
+
+EXTRA = [tables, bounded_native]
 
 TRUSTED = ["abstract ElementTree model (find/findall/get/text/tag/iteration total; finite acyclic tree)",
            "counting homomorphisms LB/RB/NW: concat, literal, strip, slice-split and join axiom instances"]
